@@ -344,8 +344,23 @@ func runC16(rc *RunCtx) {
 				r, e := h.Do("cb", Req{Op: logical.UpdateOperation, Path: "pki/revoke", Token: h.Root, Data: map[string]any{"serial_number": b.serial}})
 				okb = e == nil && (r == nil || !r.IsError())
 			})
+			// the third party is some other request that rebuilds the CRL - not
+			// all of them are serialised with revocations the way rotate is
+			third := tp.Pick(5)
+			note("  third party: %s", []string{"crl/rotate", "config/crl rewrite", "tidy", "new issuer", "crl/rotate-delta"}[third])
 			s.Go(fmt.Sprintf("cr%d", i), func() {
-				h.Do("cr", Req{Op: logical.ReadOperation, Path: "pki/crl/rotate", Token: h.Root})
+				switch third {
+				case 0:
+					h.Do("cr", Req{Op: logical.ReadOperation, Path: "pki/crl/rotate", Token: h.Root})
+				case 1: // rewrite the CRL configuration with its current values (forces a rebuild when auto_rebuild is off)
+					h.Do("cr", Req{Op: logical.UpdateOperation, Path: "pki/config/crl", Token: h.Root, Data: map[string]any{"auto_rebuild": autoRebuild, "expiry": "72h"}})
+				case 2:
+					h.Do("cr", Req{Op: logical.UpdateOperation, Path: "pki/tidy", Token: h.Root, Data: map[string]any{"tidy_revoked_certs": true, "tidy_cert_store": true, "safety_buffer": "1s"}})
+				case 3:
+					h.Do("cr", Req{Op: logical.UpdateOperation, Path: "pki/root/generate/internal", Token: h.Root, Data: map[string]any{"common_name": fmt.Sprintf("extra root %d", i), "key_type": "ec", "key_bits": 256, "issuer_name": fmt.Sprintf("extra%d", i), "ttl": "8760h"}})
+				default:
+					h.Do("cr", Req{Op: logical.ReadOperation, Path: "pki/crl/rotate-delta", Token: h.Root})
+				}
 			})
 			s.Run()
 			s.PassThrough()
